@@ -14,7 +14,7 @@ LenOf(lc) == IF lc.full = 0 THEN lc.extra ELSE Pss0 + (lc.full - 1) * Pss + lc.e
 
 Catalogue(L) ==
   {NoTamper}
-  \cup {T("flip", u, -1, -1, "first") : u \in {HeaderUnits[i] : i \in 1..Len(HeaderUnits)}}
+  \cup {T("flip", u, -1, -1, "first") : u \in {HeaderUnits[i] : i \in 1..Len(HeaderUnits)} \ {"tsalt2", "tnp2"}}
   \cup {T("flip", u, j, -1, wh) : u \in {"body", "tag"}, j \in 0..(NumSeg(L) - 1), wh \in {"first", "last"}}
   \cup {T("trunc", u, -1, -1, "-") : u \in {"zero", "len", "afterlen", "json", "afterhdr", "tinkhdr", "aftertink", "lasttag"}}
   \cup {T("trunc", u, j, -1, "-") : u \in {"segstart", "segstart1", "segmid"}, j \in 0..(NumSeg(L) - 1)}
